@@ -272,6 +272,8 @@ def typedColumn (kind : String) (data : Bytes) (fs : List (Nat × Nat)) : Except
   | "float" => .ok (Col.floats texts)
   | "ilist" => (intListColumn texts).map Col.intLists
   | "strand" =>
+    -- the column is taken as a flat array with one byte per row (an assertion in the code: anything else is refused)
+    if texts.any (fun t => t.length != 1) then .error .other else
     match firstBadRow texts strandOK with
     | some i => .error (.format i)
     | none => .ok (Col.strs texts)
@@ -745,6 +747,10 @@ def parseFile (fmt : String) (S : Schema) (viaOpen : Bool) (bs0 : Bytes) (vcfShi
     parseDelimited { S with cols := [("type", "str"), ("name", "id"), ("sequence", "str")] } bs sel
       |>.map (fun r => (r.1, r.2.drop 1))
   else parseDelimited S bs sel
+
+/-- the documented table with rows selected; an index outside the table has no documented result -/
+def resPick? (sel : Option (List Nat)) (r : Nat × List Col) : Option (Nat × List Col) :=
+  if selOK sel r.1 then some (resPick sel r) else none
 
 /-- a text uses CRLF line ends when every line, except possibly the last one (which may lack its terminator or
 carry a bare LF), ends in CR — and at least one does; then the CR is not part of any line -/
